@@ -5,3 +5,4 @@ pub mod cpkt4;
 pub mod cpkt5;
 pub mod dpkts;
 pub mod cwork;
+pub mod cs3;
